@@ -219,6 +219,29 @@ fn main() {
         }
     }
 
+    // integer quotients next to a power of ten, every length 1..=40 (the digit count of the first integer
+    // quotient decides how many more digits the loop produces)
+    for k in 1..=40u64 {
+        let p10 = pow10(k);
+        for d in [1i64, 2, 0] {
+            for b in [2i64, 3, 7] {
+                for r in [1i64, b - 1] {
+                    o.checks += 1;
+                    let a = (&p10 - d) * b + r;
+                    let (da, db) = (Dec { n: a, s: 0 }, Dec::new(b, 0));
+                    match guard(|| &bd(&da) / &bd(&db)) {
+                        Ok(res) => {
+                            if let Err(e) = judge_div(&da, &db, &dec(&res), p) {
+                                o.bad("division (integer quotient next to a power of ten)", format!("{} / {}", da.show(), db.show()), e, dec(&res).show());
+                            }
+                        }
+                        Err(e) => o.bad("division", format!("{} / {}", da.show(), db.show()), "a quotient".into(), e),
+                    }
+                }
+            }
+        }
+    }
+
     // long denominators (more digits than the precision + guard digits) with exact-tie and exact quotients
     if p <= 34 {
         let dens: Vec<BigInt> = vec!["12345678901234567890123".parse().unwrap(), "1234567890123456789013004".parse().unwrap(), "9999999999999999999999999999999999999999".parse().unwrap(), "1000000000000000000000000000000000000000000000000000000000000001".parse().unwrap()];
